@@ -100,9 +100,14 @@ def run(tier, seed):
         seen = {json.dumps(v['prog']): v for v in res3.prints if isinstance(v, dict) and v.get('vs')}
         progs += list(seen.values())
         # the parameter-array model (particles carry charge and mass next to positions and velocities): all programs of length 3
-        resp = vs_run(os.path.join(scratch, 'vsp'), 3 if tier == 'quick' else 4, haspar=True)
-        rep.add_tlc(resp, 'MC ValueSemantics with parameter arrays (particles), all programs')
+        resp = vs_run(os.path.join(scratch, 'vsp'), 3, haspar=True)
+        rep.add_tlc(resp, 'MC ValueSemantics with parameter arrays (particles), all programs of length 3')
         progs += [v for v in resp.prints if isinstance(v, dict) and v.get('vs')]
+        if tier == 'thorough':
+            resp5 = vs_run(os.path.join(scratch, 'vsp5'), 5, haspar=True, simulate=3000, seed=seed + 1)
+            rep.add_tlc(resp5, 'GEN ValueSemantics with parameter arrays, sampled programs of length 5')
+            seenp = {json.dumps(v['prog']): v for v in resp5.prints if isinstance(v, dict) and v.get('vs')}
+            progs += list(seenp.values())
         for r in (res, res3, resp):
             if r.violation:
                 rep.violation('model.' + r.violation, dict(kind='model', tlc_error=r.error_text[:3000]))
